@@ -271,10 +271,62 @@ def streamSMC (t : Text) (sm : SMap) (o : Opts) : Option SResult :=
   | false, true => streamSMLinesFinalC t sm
   | false, false => streamSMLinesFullC t sm
 
+/-! ## ConcatSource with the crate's `u32` column arithmetic (concat_source.rs:222-226, fix F16)
+
+`mapping.generated_column.saturating_add(current_column_offset)`: the total model (`concatEv`) adds in `Nat`; the two agree
+whenever the sum stays below 2³² (`Lemmas/TrapsConcat.lean`). -/
+
+def satAdd32 (a b : Nat) : Nat := min (a + b) (2 ^ 32 - 1)
+
+def concatEvS (final : Bool) (st : CSt) : Ev → CSt × List Ev
+  | .chunk text m =>
+    let line := m.gl + st.lineOff
+    let column := if m.gl == 1 then satAdd32 m.gc st.colOff else m.gc
+    let close : List Ev :=
+      if st.needClose && (m.gl != 1 || m.gc != 0) then [.chunk none ⟨st.lineOff + 1, st.colOff, none⟩] else []
+    let rsi : Option Nat := m.orig.bind fun o => st.sim[o.src]?
+    let rni : Option Nat := (m.orig.bind (·.name)).bind fun n => st.nim[n]?
+    let st' := { st with needClose := false, lastMappingLine := if rsi.isNone then 0 else m.gl }
+    let out : Ev :=
+      match rsi, m.orig with
+      | some si, some o => .chunk (if final then none else text) ⟨line, column, some ⟨si, o.line, o.col, rni⟩⟩
+      | _, _ => .chunk (if final then none else text) ⟨line, column, none⟩
+    (st', close ++ [out])
+  | e => concatEv final st e
+
+def concatEvsS (final : Bool) : CSt → List Ev → CSt × List Ev
+  | st, [] => (st, [])
+  | st, e :: es =>
+    let r := concatEvS final st e
+    let r2 := concatEvsS final r.1 es
+    (r2.1, r.2 ++ r2.2)
+
+def concatChildS (final : Bool) (st : CSt) (child : SResult) : CSt × List Ev :=
+  let st0 := { st with sim := [], nim := [], lastMappingLine := 0 }
+  let (st1, evs) := concatEvsS final st0 child.evs
+  let gi := child.info
+  let close := st1.needClose && (gi.line != 1 || gi.col != 0)
+  let closeEv : List Ev := if close then [.chunk none ⟨st1.lineOff + 1, st1.colOff, none⟩] else []
+  let nc := if close then false else st1.needClose
+  ({ st1 with colOff := if gi.line > 1 then gi.col else st1.colOff + gi.col
+              needClose := nc || (final && st1.lastMappingLine == gi.line)
+              lineOff := st1.lineOff + (gi.line - 1) }, evs ++ closeEv)
+
+def concatGoS (final : Bool) : CSt → List SResult → CSt × List Ev
+  | st, [] => (st, [])
+  | st, c :: cs =>
+    let r := concatChildS final st c
+    let r2 := concatGoS final r.1 cs
+    (r2.1, r.2 ++ r2.2)
+
+def concatStreamS (final : Bool) (children : List SResult) : SResult :=
+  let r := concatGoS final {} children
+  ⟨r.2, ⟨r.1.lineOff + 1, r.1.colOff⟩⟩
+
 /-! ## whole trees: `source()` and `stream_chunks` with the checked pieces in place
 
 Nodes whose arithmetic is not restated in checked form (OriginalSource's tokenizer, the combined map, the position bookkeeping of
-ConcatSource / ReplaceSource streaming) pass through the total model. -/
+ReplaceSource streaming) pass through the total model; ConcatSource uses the crate's saturating column addition. -/
 
 mutual
 def _root_.Rs.Src.srcC : Src → Option Text
@@ -310,7 +362,7 @@ def _root_.Rs.Src.streamC : Src → Opts → Store → Option (SResult × Store)
     match inner with
     | some im => some (streamCombined t map name origSrc im remove o, σ)
     | none => (streamSMC t map o).map (·, σ)
-  | .concat .nil, o, σ => some (concatStream o.final [], σ)
+  | .concat .nil, o, σ => some (concatStreamS o.final [], σ)
   | .concat (.cons s rest), o, σ =>
     match rest with
     | .nil => s.streamC o σ
@@ -320,7 +372,7 @@ def _root_.Rs.Src.streamC : Src → Opts → Store → Option (SResult × Store)
       | some r =>
         match rest.streamsC o r.2 with
         | none => none
-        | some r2 => some (concatStream o.final (r.1 :: r2.1), r2.2)
+        | some r2 => some (concatStreamS o.final (r.1 :: r2.1), r2.2)
   | .replace inner rs, o, σ =>
     match inner.streamC ⟨o.columns, false⟩ σ with
     | none => none
